@@ -261,6 +261,8 @@ func (w *World) RunPrefix(t *rapid.T, o RunOpts) {
 	if o.Profile == "laggard" && len(w.Nodes) > 1 {
 		lagMode = rapid.IntRange(0, 2).Draw(t, "lagmode")
 	}
+	// in half of the cases some messages are validated first and received later (host queue)
+	stageSome := rapid.Bool().Draw(t, "stagesome")
 	// at least one node starts at once
 	if lagMode > 0 {
 		w.Start(rapid.IntRange(1, len(w.Nodes)-1).Draw(t, "firststart"))
@@ -313,6 +315,15 @@ func (w *World) RunPrefix(t *rapid.T, o RunOpts) {
 				cats = append(cats, cat{"drop", wt.drop})
 			}
 		}
+		var inboxes []int
+		for i := range w.Nodes {
+			if len(w.Inbox[i]) > 0 {
+				inboxes = append(inboxes, i)
+			}
+		}
+		if len(inboxes) > 0 {
+			cats = append(cats, cat{"inbox", max(1, wt.deliver/3)})
+		}
 		if len(alarms) > 0 {
 			cats = append(cats, cat{"alarm", wt.alarm})
 		}
@@ -357,7 +368,13 @@ func (w *World) RunPrefix(t *rapid.T, o RunOpts) {
 					k = nk
 				}
 			}
-			w.Deliver(deliverable[k])
+			if stageSome && rapid.IntRange(0, 3).Draw(t, "stage") == 0 {
+				w.Stage(deliverable[k])
+			} else {
+				w.Deliver(deliverable[k])
+			}
+		case "inbox":
+			w.ReceiveStaged(inboxes[rapid.IntRange(0, len(inboxes)-1).Draw(t, "inboxpick")])
 		case "dup":
 			w.Duplicate(deliverable[rapid.IntRange(0, len(deliverable)-1).Draw(t, "pick")])
 		case "drop":
@@ -668,6 +685,19 @@ func (w *World) byzForgedFlood(t *rapid.T) {
 }
 
 func (w *World) byzPrevRoundJustification(t *rapid.T, inst, round uint64, value *gpbft.ECChain, under bool) (*gpbft.Justification, bool) {
+	// replayed evidence: a genuine quorum of an older round (never admissible: the evidence
+	// must come from the round just before)
+	if round >= 2 && rapid.IntRange(0, 4).Draw(t, "byzstaleevidence") == 0 {
+		old := uint64(rapid.IntRange(0, int(round)-2).Draw(t, "byzstaleround"))
+		if j, ok := w.ByzJustify(inst, old, gpbft.COMMIT_PHASE, nil, false); j != nil && ok {
+			w.Stats.StaleEvidence++
+			return j, ok
+		}
+		if j, ok := w.ByzJustify(inst, old, gpbft.PREPARE_PHASE, value, false); j != nil && ok {
+			w.Stats.StaleEvidence++
+			return j, ok
+		}
+	}
 	// either COMMIT bottom or PREPARE value of the previous round
 	if rapid.Bool().Draw(t, "byzjustkind") {
 		if j, ok := w.ByzJustify(inst, round-1, gpbft.COMMIT_PHASE, nil, false); j != nil {
@@ -733,6 +763,7 @@ func (w *World) Close(t *rapid.T, maxSteps int, roundBound uint64) CloseResult {
 	}
 	w.Pool = kept
 	w.Personas = nil // the coalition is silent from now on
+	w.DrainInboxes()
 	lastFP, lastChange := "", w.Now
 	for steps := 0; steps < maxSteps; steps++ {
 		if w.AllDecided() {
